@@ -234,14 +234,6 @@ Proof.
 Qed.
 
 (* ---- histories of register-API calls ---- *)
-Inductive rop := RW (bits : Z) (r : reg) (v : Z) | RR (bits : Z) (r : reg).
-
-Definition rop_wf (o : rop) : Prop :=
-  match o with
-  | RW bits r v => In r all_views /\ In bits (8 :: 16 :: 32 :: 64 :: nil) /\ 0 <= v < 2 ^ 64
-  | RR bits r => In r all_views /\ In bits (8 :: 16 :: 32 :: 64 :: nil)
-  end.
-
 Definition unit_to_z (x : outcome unit * mstate) : outcome Z * mstate :=
   match x with
   | (Ok _, s) => (Ok 0, s) | (Err e, s) => (Err e, s) | (Panic p, s) => (Panic p, s) | (Fuel, s) => (Fuel, s)
@@ -257,26 +249,11 @@ Definition model_rop (c : cfg) (o : rop) (s : mstate) : outcome Z * mstate :=
       else if bits =? 32 then reg_read_32 c r s else reg_read_64 c r s
   end.
 
-Definition spec_rop (o : rop) (f : reg -> Z) : outcome Z * (reg -> Z) :=
-  match o with
-  | RW bits r v =>
-      if (view_width r =? bits) && (v <? 2 ^ bits) then (Ok 0, rf_write f r v) else (Err EFatal, f)
-  | RR bits r =>
-      if view_width r =? bits then (Ok (rf_read f r), f) else (Err EFatal, f)
-  end.
-
 Fixpoint run_model (c : cfg) (ops : list rop) (s : mstate) : list (outcome Z) * mstate :=
   match ops with
   | nil => (nil, s)
   | o :: ops' => let '(r, s1) := model_rop c o s in
                  let '(rs, s2) := run_model c ops' s1 in (r :: rs, s2)
-  end.
-
-Fixpoint run_spec (ops : list rop) (f : reg -> Z) : list (outcome Z) * (reg -> Z) :=
-  match ops with
-  | nil => (nil, f)
-  | o :: ops' => let '(r, f1) := spec_rop o f in
-                 let '(rs, f2) := run_spec ops' f1 in (r :: rs, f2)
   end.
 
 Lemma all_views_supported r : In r all_views -> is_supported r = true /\ view_width r <> 0 /\ r <> RIP /\ r <> EIP.
